@@ -129,6 +129,28 @@ theorem copy_same_needs_size :
           = (psVariance sq c axis s).mean.getD (axis * c.nb) 0 := fun h =>
   C09cex.means_differ id (h id C09cex.cC C09cex.sC C09cex.sC_fresh 0).2.2.2.2
 
+/-- the Gaussian start distribution (constructor called without data): the grid that `createFromProjections` leaves is
+    the outer product of the two sampled Gaussians, normalised with the charge MEASURED ON THAT PRODUCT (projection and
+    integral are refreshed before `normalize`; the call sequence is the generated one, `TiePS.create_sequence_is_code`) -/
+theorem gaussian_start_data (c : PSConst α) (s : PSState α) :
+    (psCreateFromProjections c s).data
+      = (psNormalize c (psIntegrate c (psXProj c (psOuter c s)))).data := rfl
+
+/-- hence every occupied bucket of the start distribution integrates to exactly its set share, whatever the width of the
+    Gaussians (function-level statement: `d` the outer product, its own charge non-zero) -/
+theorem gaussian_start_normalised (n : Nat) (ws g0 g1 : Nat → α) (fset : Nat → α) (pos : Nat → Bool) (b : Nat)
+    (hn : 0 < n) (hpos : pos b = true)
+    (hfill : chargeOf n ws (fun i => g0 (i / n % n) * g1 (i % n)) b ≠ 0) :
+    chargeOf n ws (normalizeOf n pos fset (chargeOf n ws (fun i => g0 (i / n % n) * g1 (i % n)))
+      (fun i => g0 (i / n % n) * g1 (i % n))) b = fset b :=
+  normalize_exact n ws _ fset pos b hn hpos hfill
+
+/-- and the state the constructor returns is fresh: its cached projections, populations and integral are those of the
+    normalised grid -/
+theorem gaussian_start_fresh (c : PSConst α) (g0 g1 : Nat → α) : Fresh c (psConstructGauss c g0 g1) := by
+  unfold psConstructGauss
+  exact ⟨rfl, rfl, rfl, rfl⟩
+
 /-- non-vacuity: a one-bunch 3×3 state built by the constructor is fresh -/
 example : Fresh (α := ℚ)
     { n := 3, nb := 1, ax0 := ⟨3, -1, 1⟩, ax1 := ⟨3, -1, 1⟩, fset := #[1], pos := #[true] }
